@@ -332,6 +332,22 @@ func corrupt(p, other *pristine, corr string, h uint64) ([]byte, string, error) 
 	// ECDSA: curve pub d comment
 	case "pointMismatch":
 		in.Fields[1] = oin.Fields[1]
+	case "pointNegated", "pointNegatedInner", "pointShareY":
+		curve := map[string]elliptic.Curve{"nistp256": elliptic.P256(), "nistp384": elliptic.P384(), "nistp521": elliptic.P521()}[string(in.Fields[0])]
+		pt, ok := relatedPoint(curve, in.Fields[1], corr == "pointShareY")
+		if !ok {
+			return nil, "", errNotConstructible
+		}
+		in.Fields[1] = pt
+		if corr != "pointNegatedInner" {
+			typ, f, _, err := c38lib.SplitKey(kf.Pub)
+			if err != nil {
+				return nil, "", err
+			}
+			f[1] = pt
+			kf.Pub = c38lib.JoinKey(typ, f)
+		}
+		note = "public point replaced by a different curve point sharing one coordinate with D*G"
 	case "dOutOfRange":
 		n := map[string]*big.Int{"nistp256": elliptic.P256().Params().N, "nistp384": elliptic.P384().Params().N, "nistp521": elliptic.P521().Params().N}[string(in.Fields[0])]
 		in.Fields[2] = c38lib.MpintBytes(new(big.Int).Add(n, big.NewInt(int64(h%5))))
@@ -357,6 +373,36 @@ func corrupt(p, other *pristine, corr string, h uint64) ([]byte, string, error) 
 		kf.Enc = enc
 	}
 	return kf.PEM(), note, nil
+}
+
+var errNotConstructible = errors.New("no such point for this key")
+
+// relatedPoint returns another point of the curve that shares one coordinate with the given uncompressed point:
+// the negation (X, p-Y), or -- shareY -- a point (X', Y) with X' != X, which exists for about half of the keys
+// (X' is a root of x^2 + X x + X^2 - 3, the cofactor of (x - X) in x^3 - 3x + b - Y^2).
+func relatedPoint(curve elliptic.Curve, pt []byte, shareY bool) ([]byte, bool) {
+	x, y := elliptic.Unmarshal(curve, pt)
+	if x == nil {
+		return nil, false
+	}
+	p := curve.Params().P
+	if !shareY {
+		ny := new(big.Int).Sub(p, y)
+		return elliptic.Marshal(curve, x, ny), curve.IsOnCurve(x, ny)
+	}
+	disc := new(big.Int).Mul(x, x)
+	disc.Mul(disc, big.NewInt(3)).Sub(big.NewInt(12), disc).Mod(disc, p)
+	r := new(big.Int).ModSqrt(disc, p)
+	if r == nil {
+		return nil, false
+	}
+	inv2 := new(big.Int).ModInverse(big.NewInt(2), p)
+	x2 := new(big.Int).Sub(r, x)
+	x2.Mul(x2, inv2).Mod(x2, p)
+	if x2.Cmp(x) == 0 || !curve.IsOnCurve(x2, y) {
+		return nil, false
+	}
+	return elliptic.Marshal(curve, x2, y), true
 }
 
 type outcome struct {
@@ -460,6 +506,10 @@ func (w *world) one(tc tcase, line []byte, variant int) bool {
 	var file []byte
 	var note string
 	file, note, err = corrupt(p, other, f.Corr, h)
+	if err == errNotConstructible {
+		bump(out, "not_constructible_for_this_key:"+f.Corr)
+		return false
+	}
 	if err != nil {
 		w.t.Fatalf("corrupting %s with %s: %v", p.desc, f.Corr, err)
 	}
